@@ -272,6 +272,8 @@ def main(a):
         parts["arglen"] = batch("ARGLEN", 0, 0, counts.get("ARGLEN", 0))
         parts["cmdline"] = batch("CMDLINE", 0, 0, counts.get("CMDLINE", 0))
         parts["env"] = batch("ENV", 0, 0, counts.get("ENV", 0))
+        bk = "BLOCKS" if thorough else "BLOCKSQ"
+        parts["blocks"] = batch(bk, 0, 0, counts.get(bk, 0))
         parts["boundary"] = batch("BOUNDARY", 0, 0, counts.get("BOUNDARY", 0))
         sk = "SCALE" if thorough else "SCALEQ"
         parts["scale"] = batch(sk, 0, 0, counts.get(sk, 0))
@@ -328,7 +330,7 @@ def main(a):
         twin = {"runs": 0, "differences": 0}
         twin_cands = []
         nlight = 4000 if not thorough else 100000
-        for kind, seed, count in (("CORPUS", 0, counts.get("CORPUS", 0)), ("LIGHT", a.seed, nlight), ("TOKENQ", 0, counts.get("TOKENQ", 0))):
+        for kind, seed, count in (("CORPUS", 0, counts.get("CORPUS", 0)), ("LIGHT", a.seed, nlight), ("TOKENQ", 0, counts.get("TOKENQ", 0)), ("BLOCKSQ", 0, counts.get("BLOCKSQ", 0))):
             ra = orch.run_batch(l1, kind, seed, 0, count, nw, ENV_A, chunk=400, args=wargs, init_cmds=("HASHALL 1",))
             rz = orch.run_batch(TWIN, kind, seed, 0, count, nw, ENV_Z, chunk=400, args=wargs, init_cmds=("HASHALL 1",))
             for r, h in ra["hashes"].items():
@@ -339,7 +341,7 @@ def main(a):
                         twin_cands.append({"run": r, "kind": kind, "seed": seed})
         t_twin = time.time() - t1
 
-        kinds = {"corpus": "CORPUS", "prefix": pk, "token": tk, "random": "RUNS", "light": "LIGHT", "config": ck, "arglen": "ARGLEN", "cmdline": "CMDLINE", "env": "ENV", "boundary": "BOUNDARY", "scale": sk}
+        kinds = {"corpus": "CORPUS", "prefix": pk, "token": tk, "random": "RUNS", "light": "LIGHT", "config": ck, "arglen": "ARGLEN", "cmdline": "CMDLINE", "env": "ENV", "blocks": bk, "boundary": "BOUNDARY", "scale": sk}
         cands = []
         for name, part in parts.items():
             for c in part["candidates"]:
@@ -532,6 +534,9 @@ def main(a):
                     "process_environments": {"kind": "ENV", "runs": parts["env"]["executed"], "of": counts.get("ENV", 0),
                                              "what": "every command line of one or two atoms, and `~`-spelt input names for each input type, under each of four non-ordinary process environments (every variable unset; every common variable empty; 4096 characters long; odd values); getenv() is answered by the simulator, the names asked for are listed as probe_getenv_*",
                                              "complete": parts["env"]["executed"] == counts.get("ENV", 0)},
+                    "present_and_absent_blocks": {"kind": bk, "runs": parts["blocks"]["executed"], "of": counts.get(bk, 0),
+                                                  "what": "every block of " + ("every shipped file" if thorough else "input/example.* and every fourth test point") + " removed / reduced to its definition line / reduced to its last entry, and every pair of blocks of input/example.* removed together (also compared between the uninitialised-memory twins)",
+                                                  "complete": parts["blocks"]["executed"] == counts.get(bk, 0)},
                     "boundary_documents": {"kind": "BOUNDARY", "runs": parts["boundary"]["executed"], "of": counts.get("BOUNDARY", 0),
                                            "what": "one CR / one NUL inserted at every offset of input/example.*; the examples padded to 64 KiB with one special byte (CR, LF, NUL, #, space, letter) at every offset 2^k-2..2^k+1, k=8..16; %d curated edge documents (DOS/Mac line endings, torn between CR and LF, no final newline, torn inside the first block header, lengths exactly at 2^k-1, 2^k, 2^k+1); each via stdin and via path" % counts.get("EDGE", 0),
                                            "complete": parts["boundary"]["executed"] == counts.get("BOUNDARY", 0)},
